@@ -6,6 +6,9 @@ Parts
   labels    generated database text (label lists of 0..40 labels, arbitrary whitespace layout, body split anywhere):
             Lemma.proof.labels = mandatory hypotheses in database order, then the listed labels, numbered from 1
   z         Z after arbitrary steps: marker exactly there; later numbers > m+n denote the k-th marked step (vs reference decoder)
+  exec      generated databases whose target proof verifies under Appendix B (reference verifier), compressed with Z on every
+            repeated subproof / on a random half / with subproofs marked twice: running the decoded proof through the
+            translator (exec_proof) must succeed and prove the target's statement
   hashseed  targets with 0..4 mandatory variables whose $f order differs from name order, decoded in child processes
             under several PYTHONHASHSEED values
 """
@@ -26,7 +29,7 @@ PROP = 'C15'
 RULE = (
     'exhaustive number round trip (1..200 000 quick / 1..1 000 000 thorough, plus all boundaries 20*5^k +- 2) and every letter '
     'string with <= 5 (quick) / <= 7 (thorough) high digits; Hypothesis-generated label lists, whitespace layouts and Z placements; '
-    'hash-seed sweep in child processes. non-trivial = number >= 21, label list of length >= 2, proof body with >= 1 Z followed by '
+    'hash-seed sweep in child processes; generated valid databases in three Z layouts executed by the translator. non-trivial = number >= 21, label list of length >= 2, proof body with >= 1 Z followed by '
     'a back-reference, target with >= 2 mandatory variables; distinct by value / database text'
 )
 ASSUME = ['lib/refmm.py encodes/decodes compressed proofs as in Appendix B of the Metamath book (trusted)']
@@ -237,6 +240,55 @@ def shard(stats: Stats, shard_i, nshards, seed, tier):
     common.run_given(stats, seed, n, cases(), body)
 
 
+# ---- exec: the decoded numbers as *consumed* by the translator (exec_proof): with Z marks on every repeated subproof, on a
+# random half, and with subproofs marked twice, running the decoded proof must succeed and prove the target's statement,
+# because the compressed proof verifies under Appendix B (reference verifier lib/refmm.py)
+@st.composite
+def exec_cases(draw):
+    from lib import mmgen
+
+    g, goal, rpn, texts = mmgen.make(mmgen.DrawRnd(draw))
+    from checks import c16
+    return {'part': 'exec', 'texts': {k: texts[k] for k in ('all', 'random', 'dup')}, 'exp_claim': c16.image(g, goal), 'goal': mmgen.tstr(goal)}
+
+
+def exec_body(c, stats: Stats):
+    import shutil, tempfile
+    from checks import c16
+    from lib import refmachine as M, refml as R
+
+    d = tempfile.mkdtemp(prefix='c15_')
+    try:
+        for zm, t in c['texts'].items():
+            try:
+                refmm.parse_and_verify(t)
+            except Exception:
+                stats.excluded['exec-generator-invalid-database'] += 1
+                return
+            body_letters = t.split('$=')[-1].split(')')[-1]
+            nz = body_letters.count('Z')
+            stats.case(t, nz >= 1, ['exec', 'exec-layout-' + zm] + (['exec-has-Z'] if nz else []) + (['exec-Z>=3'] if nz >= 3 else []),
+                       {'goal': c['goal'], 'layout': zm, 'proof': t.split('$=')[-1].strip()[:120]})
+            try:
+                files = c16.translate_inprocess(t, d)
+            except Exception as e:
+                raise Violation('executing the decoded proof (layout %s) raised %s: %s although the compressed proof verifies under Appendix B\n%s'
+                                % (zm, type(e).__name__, str(e)[:200], t), dict(c, layout=zm), 'exec-raise')
+            res = M.verify(*files)
+            exp = c16._tup(c['exp_claim']) if isinstance(c['exp_claim'], list) else c['exp_claim']
+            bij = c16.Bij(); bij.new_statement()
+            if res[0] != 'ACCEPT' or len(res[1].claimed) != 1 or not bij.unify(exp, res[1].claimed[0]) or len(res[1].proved) != 1:
+                raise Violation('executing the decoded proof (layout %s) does not prove the target statement |- %s (documented machine: %s %s)\n%s'
+                                % (zm, c['goal'], res[0], res[1] if res[0] == 'REJECT' else [R.show(x) for x in res[1].proved], t), dict(c, layout=zm), 'exec-statement')
+    finally:
+        shutil.rmtree(d, ignore_errors=True)
+
+
+def exec_shard(stats: Stats, shard_i, nshards, seed, tier):
+    n = {'quick': 12, 'thorough': 500}[tier]
+    common.run_given(stats, seed, n, exec_cases(), exec_body)
+
+
 def run(tier, t0):
     import glob
 
@@ -252,11 +304,16 @@ def run(tier, t0):
         common.run_sharded(stats, 'checks.c15', 'shard', common.NPROC, tier)
     if not stats.violations:
         common.run_sharded(stats, 'checks.c15', 'hashseed_shard', common.NPROC, tier)
+    if not stats.violations:
+        common.run_sharded(stats, 'checks.c15', 'exec_shard', common.NPROC, tier)
     return common.finish(PROP, tier, stats, RULE, ASSUME, t0)
 
 
 def replay(case):
     part = case.get('part', 'labels')
+    if part == 'exec':
+        exec_body(case, Stats())
+        return
     if part == 'numbers':
         n = case['number']
         _, got = decode_with_repo(db_text([], '\\k', '( ) ' + refmm.encode_num(n)))
